@@ -4,6 +4,7 @@ package main
 // and modular calls through contracts.
 
 import (
+	"os"
 	"bytes"
 	"fmt"
 	"go/ast"
@@ -967,6 +968,8 @@ func (u *Unit) concatStrings(st *State, a, b StringV) Value {
 
 // ---------- the interpreter loop ----------
 
+var debugPaths = os.Getenv("GOVC_PATHS") != ""
+
 func (u *Unit) run(st *State, fr *Frame, b *ssa.BasicBlock, idx int) []Outcome {
 	if u.aborted != "" {
 		return nil
@@ -1222,6 +1225,9 @@ func (u *Unit) run(st *State, fr *Frame, b *ssa.BasicBlock, idx int) []Outcome {
 			fr.regs[in] = u.val(st, fr, in.Tuple).(TupleV)[in.Index]
 		case *ssa.Call:
 			outs, ok := u.call(st, fr, in)
+			if debugPaths {
+				fmt.Fprintf(os.Stderr, "  [paths] %s: call %s -> %d outcomes ok=%v\n", fnKey(fr.fn), u.where(fr, in), len(outs), ok)
+			}
 			if !ok {
 				return nil
 			}
